@@ -93,6 +93,9 @@ def check_model(ctx, out, rule="C08.model"):
                 out.viol(rule, "%s|%s|verdict" % (rule, "".join(c[0] for c in case)), ctx.where(vb),
                          "%s: violations are built for content line index(es) %s; expected %s (a violation exactly when some non-blank line does not match, designating the first such line)"
                          % (desc, sorted(rep.reported) or "none", sorted(want) or "none"))
+        elif want and any(k == 0 for k in rep.ends):
+            out.viol(rule, "%s|%s|passed-over" % (rule, "".join(c[0] for c in case)), ctx.where(vb),
+                     "%s: on some path the block is left for the next one without the violation being built - a block can be passed over although one of its lines fails the pattern" % desc)
         else:
             n += 1
     if undecided:
